@@ -130,9 +130,17 @@ def concretise(c, rnd):
             v = f'{ref} {c["a"]}%'
         else:
             v = f'{ref} {q(c["a"])} {q(c["b"])}'
-        if k == "ellipse":
-            return f'<svg>{r}<ellipse id="s" xy="1 2" wh="{v}"/></svg>'
-        return f'<svg>{r}<rect id="s" xy="1 2" wh="{v}"/></svg>'
+        subj = f'<{"ellipse" if k == "ellipse" else "rect"} id="s" xy="1 2" wh="{v}"/>'
+        if c["refkind"] == "rect" and ref == "#r" and rnd.random() < 0.5:
+            # the referenced element is itself waiting (positioned against an element written
+            # later) and has its size adjusted by dw / dh: only its final size may be taken
+            b = c["ref"]
+            w, h = b["x2"] - b["x1"], b["y2"] - b["y1"]
+            pend = (f'<rect id="r" xy="#anchor" width="{q(w - 4)}" height="{q(h + 4)}" dw="1" dh="-1"/>')
+            anchor = f'<point id="anchor" xy="{q(b["x1"])} {q(b["y1"])}"/>'
+            els = rnd.choice([[subj, pend, anchor], [pend, subj, anchor], [pend, anchor, subj]])
+            return "<svg>" + "".join(els) + "</svg>"
+        return f"<svg>{r}{subj}</svg>"
     raise ValueError(f)
 
 
